@@ -226,14 +226,14 @@ def main():
                 ck.violation("snv-posterior", {"P": st["P"], "n": st["n"], "F": st["F"], "reads": st["reads"], "impl": o["hom"],
                                                "model": [str(q) for q in st["exact_hom"]]}, key={"site": "_homozygosity_probabilities"})
             am = max(range(st["n"]), key=lambda a: st["exact_hom"][a])
-            for d, want_sampled in zip(o["decisions"], (True, False)):
+            for d, want_sampled in zip(o["decisions"], (True, True, False, False)):
                 ndec += 1
                 if d["sampled"] != want_sampled or (not want_sampled and d["allele"] != am):
                     ck.violation("fix-decision", {"P": st["P"], "n": st["n"], "F": st["F"], "reads": st["reads"], "threshold": d["thr"],
-                                                  "exact_hom": [str(q) for q in st["exact_hom"]], "impl_sampled": d["sampled"], "impl_allele": d["allele"]},
-                                 key={"site": "DenovoMCMC._mcmc", "clause": "FixedIffThreshold"})
+                                                  "exact_hom": [str(q) for q in st["exact_hom"]], "impl_sampled": d["sampled"], "impl_allele": d["allele"], "path": d.get("path")},
+                                 key={"site": "DenovoMCMC." + d.get("path", "_mcmc"), "clause": "FixedIffThreshold"})
     ck.traces += len(inst)
-    ck.nontrivial += ndec // 2
+    ck.nontrivial += ndec // 4
     ck.note("snv_posterior_instances", len(inst))
     ck.note("fix_decisions_checked", ndec)
     ck.sample({"kind": "snv-posterior-instance", "P": inst[-1]["P"], "n": inst[-1]["n"], "F": inst[-1]["F"], "reads": inst[-1]["reads"],
